@@ -117,8 +117,23 @@ def runOps {σ : Type} (E : Engine σ) (p : Provider σ) (ops : List Nat) : List
 def firstDiff (a b : List Nat) : Nat :=
   ((a.zip b).takeWhile fun (x, y) => x == y).length
 
+/-- The clause of C06 that fixes the draws of a provider made from a `Config`, if any:
+    multiple seeds without a map = "a single seed s seeds the streams with s, s+1, ... in the documented order"
+    (`C06_seed_order`, last clause); multiple seeds with a map = named seeds (`C06_missing_seed_rejected`, second
+    part: every stream gets the value of its key); one generator without a map = every accessor is that generator
+    (`C06_single_aliases`, last clause). That a seed map is ignored when multiple seeds are switched off is not
+    stated by the property: model comparison only. -/
+def configLabel : Ctor → Option String
+  | .config c =>
+    if c.multipleRandomSeeds then
+      (if c.randomSeeds.isEmpty then some "seed_order (Config: multiple seeds, single seed s: stream k is seeded s+k)"
+       else some "named_seed (Config: every stream is seeded with the value of its key)")
+    else if c.randomSeeds.isEmpty then some "single_alias (Config: one generator behind every accessor)"
+    else none
+  | _ => none
+
 /-- Provider construction followed by draws through the accessors. `label` is the property
-    predicate the command stands for (`none`: model comparison only). -/
+    predicate the command stands for (`none`: taken from the way the provider is made, `configLabel`). -/
 def providerLine (label : Option String) (inp obs : List String) : String :=
   match inp with
   | _engine :: c :: rest =>
@@ -129,6 +144,7 @@ def providerLine (label : Option String) (inp obs : List String) : String :=
       | .error e, [o] =>
         if o = errTok e then "ok"
         else if o = "ok" ∧ e = .invalid_argument then "PROPFAIL C06 missing_seed_accepted"
+        -- rejected, but with another exception class: C06 says "is rejected", not how
         else s!"MISMATCH provider model={errTok e}"
       | .error e, "ok" :: _ =>
         if e = .invalid_argument then "PROPFAIL C06 missing_seed_accepted" else s!"MISMATCH provider model={errTok e}"
@@ -141,9 +157,11 @@ def providerLine (label : Option String) (inp obs : List String) : String :=
           else
             let k := firstDiff vs model
             let what := s!"draw={k} stream={(StreamName.all.getD (ops.getD k 0) .disperserGeneration).key} model={model.getD k 0}"
-            match label with
+            match label.orElse (fun _ => configLabel ct) with
             | some l => s!"PROPFAIL C06 {l} {what}"
             | none => s!"MISMATCH provider {what}"
+      -- a complete construction rejected: the property states which constructions are rejected, not that the
+      -- others are accepted
       | .ok _, [o] => s!"MISMATCH provider model=ok observed={o}"
       | _, _ => "BADLINE"
     | _, _, _ => "BADLINE"
@@ -196,6 +214,7 @@ def handle (st : State) (cmd : String) (inp obs : List String) : State × String
         | some n => (st, s!"PROPFAIL C06 stream_isolation action={action} step={step} drew_from={n.key} allowed={showNames allowed}")
         | none =>
           if w = "w=1" then
+            -- "draws ONLY from its own stream": that an enabled process does draw is not stated - model only
             match (mustUse P c).find? (fun n => !ms.contains n) with
             | some n => (st, s!"MISMATCH uses action={action} step={step} expected_draw_from={n.key} moved={moved}")
             | none => (st, "ok")
@@ -237,6 +256,8 @@ def handle (st : State) (cmd : String) (inp obs : List String) : State × String
       -- the property: a map that has some but not all of the ten keys is rejected
       let partialMap := bits.toList.contains '0' && (!m.isEmpty || what == "provider" || what == "validate_seeds")
       if partialMap && o ≠ "err:invalid_argument" then (st, s!"PROPFAIL C06 missing_seed_accepted keys={bits} observed={o}")
+      -- left to the model: acceptance of a complete (or, for a Config, empty) map, the exception class, and the
+      -- key named in the message
       else if o ≠ exceptTok model then (st, s!"MISMATCH missing model={exceptTok model}")
       else if key ≠ "-" ∧ (firstMissing m).map (·.key) ≠ some key then
         (st, s!"MISMATCH missing_key model={((firstMissing m).map (·.key)).getD "-"}")
@@ -261,6 +282,7 @@ def handle (st : State) (cmd : String) (inp obs : List String) : State × String
           if p.isMulti && obs ≠ ["err:runtime_error"] then
             (st, s!"PROPFAIL C06 single_use_accepted observed={" ".intercalate obs}")
           else
+            -- single mode: what operator() / discard return on the one generator is not part of the statement
             match model, obs with
             | .error e, [o] => (st, if o = errTok e then "ok" else s!"MISMATCH call model={errTok e}")
             | .ok v, ["ok", o] => (st, if o = toString v then "ok" else s!"MISMATCH call model={v}")
@@ -268,6 +290,8 @@ def handle (st : State) (cmd : String) (inp obs : List String) : State × String
       | _, _ => (st, "BADLINE")
     | _ => (st, "BADLINE")
   | "rng.single" =>
+    -- SingleGeneratorProvider given several seeds: not mentioned by C06 (it speaks about the multi-stream
+    -- provider used as one generator) - model comparison only
     match inp with
     | ["map", _n] =>
       let model := singleSeedMap (tableEngine []) []
@@ -290,6 +314,9 @@ def handle (st : State) (cmd : String) (inp obs : List String) : State × String
       match nats? vs, pairs? pre, pairs? m with
       | some seeds, some pre, some om =>
         let c0 : SeedCfg := { randomSeeds := pre }
+        -- Config::read_seeds is not named by C06; only "a missing named seed is rejected" applies (fewer than ten
+        -- seeds). Which name the k-th seed gets, too many seeds and the text format are left to the model
+        -- (`C06_read_seeds*` are theorems about the model's reader).
         if seeds.length < 10 ∧ o = "ok" then (st, s!"PROPFAIL C06 missing_seed_accepted read_seeds accepted {seeds.length} seeds")
         else
           match readSeedsVec c0 seeds with
